@@ -168,7 +168,13 @@ func execProj(c *Case) (r workerResult) {
 				kinds = append(kinds, e)
 			}
 		}
-		opts = append(opts, core.WithBannedDirectives(kinds...))
+		if c.ID%2 == 0 {
+			opts = append(opts, core.WithBannedDirectives(kinds...))
+		} else { // the same set, given as one option per kind
+			for _, k := range kinds {
+				opts = append(opts, core.WithBannedDirectives(k))
+			}
+		}
 	}
 	co := core.NewJApiCore(fs.NewFile(rootAbs, c.Files[c.Root]), opts...)
 	mode := "tree"
